@@ -404,6 +404,195 @@ Proof.
     intros p Hp. simpl.
     pose (y := fun p : bool * nat => xorb (true && v p) (linf sel B p)).
     assert (Hy : y p = false).
-    { apply HzA; [| |apply sympf_lin_zero_r_placeholder|exact Hp]. }
+    { apply HzA; [| | |exact Hp].
+      - unfold y. rewrite Hv, (linf_zero_col _ sel B X0 HB). reflexivity.
+      - intros q Hq. unfold y, tlv. rewrite <- linf_tlv, <- (Hf q Hq). unfold tlv.
+        destruct (v (fst q, S (snd q))); reflexivity.
+      - unfold y. rewrite sympf_add_r, (Hvc w (or_introl eq_refl)), sympf_lin_zero_r; [reflexivity|].
+        intros u Hu. apply Hc; [left; reflexivity|right; exact Hu]. }
     revert Hy. unfold y. destruct (v p), (linf sel B p); simpl; congruence.
 Qed.
+
+(* Case B: nobody has an X on qubit 0; the generators in B have no Z there either *)
+Lemma caseB_indep n w B :
+  (forall u, In u B -> u X0 = false) -> (forall u, In u B -> u Z0 = false) ->
+  indepv (S n) (w :: B) -> indepv n (map tlv B).
+Proof.
+  intros HBx HBz Hi. apply (tail_indep n w B Hi). intros sel Hl Ht.
+  apply zero_from_tail.
+  - apply linf_zero_col; exact HBx.
+  - apply linf_zero_col; exact HBz.
+  - intros p Hp. unfold tlv. rewrite <- linf_tlv. apply Ht; exact Hp.
+Qed.
+
+(* y = w + sum_sel B vanishes on qubits 1.. when tl w = sum_sel (tl B) *)
+Lemma tail_cancel n (w : vec) sel B :
+  (forall p, snd p < n -> tlv w p = linf sel (map tlv B) p) ->
+  forall p, snd p < n -> tlv (fun q => xorb (true && w q) (linf sel B q)) p = false.
+Proof.
+  intros Hf p Hp. unfold tlv at 1. rewrite <- linf_tlv, <- (Hf p Hp). unfold tlv.
+  destruct (w (fst p, S (snd p))); reflexivity.
+Qed.
+
+Lemma caseB1 n (IH : P n) w B :
+  length B = n -> w X0 = false -> w Z0 = false ->
+  (forall u, In u B -> u X0 = false) -> (forall u, In u B -> u Z0 = false) ->
+  commv (S n) (w :: B) -> indepv (S n) (w :: B) -> False.
+Proof.
+  intros Hlen Hwx Hwz HBx HBz Hc Hi.
+  destruct (IH (map tlv B) (tlv w)) as [sel [Hl Hf]].
+  - rewrite map_length; exact Hlen.
+  - apply tail_comm; [exact HBx|apply (comm_tail_of_cons _ _ _ Hc)].
+  - apply (caseB_indep n w B HBx HBz Hi).
+  - intros a Ha. apply in_map_iff in Ha as [u [<- Hu]].
+    rewrite <- sympf_tl; [apply Hc; [right; exact Hu|left; reflexivity]|apply HBx; exact Hu|exact Hwx].
+  - rewrite map_length in Hl.
+    assert (Hfb : forallb negb (true :: sel) = true).
+    { apply Hi; [simpl; f_equal; exact Hl|].
+      intros p Hp. simpl.
+      apply (zero_from_tail n (fun q => xorb (true && w q) (linf sel B q))); [| | |exact Hp].
+      - rewrite Hwx, (linf_zero_col _ sel B X0 HBx). reflexivity.
+      - rewrite Hwz, (linf_zero_col _ sel B Z0 HBz). reflexivity.
+      - apply tail_cancel; exact Hf. }
+    simpl in Hfb. discriminate.
+Qed.
+
+Lemma caseB2 n (IH : P n) w B v :
+  length B = n -> w X0 = false -> w Z0 = true ->
+  (forall u, In u B -> u X0 = false) -> (forall u, In u B -> u Z0 = false) ->
+  commv (S n) (w :: B) -> indepv (S n) (w :: B) -> vcomm (S n) (w :: B) v ->
+  spanv (S n) (w :: B) v.
+Proof.
+  intros Hlen Hwx Hwz HBx HBz Hc Hi Hvc.
+  assert (HcT : commv n (map tlv B))
+    by (apply tail_comm; [exact HBx|apply (comm_tail_of_cons _ _ _ Hc)]).
+  assert (HiT : indepv n (map tlv B)) by apply (caseB_indep n w B HBx HBz Hi).
+  (* Z on qubit 0 is in the span *)
+  destruct (IH (map tlv B) (tlv w)) as [sel1 [Hl1 Hf1]].
+  { rewrite map_length; exact Hlen. }
+  { exact HcT. }
+  { exact HiT. }
+  { intros a Ha. apply in_map_iff in Ha as [u [<- Hu]].
+    rewrite <- sympf_tl; [apply Hc; [right; exact Hu|left; reflexivity]|apply HBx; exact Hu|exact Hwx]. }
+  assert (Hvx : v X0 = false).
+  { apply (x0_from_Z n v (fun q => xorb (true && w q) (linf sel1 B q))).
+    - rewrite Hwx, (linf_zero_col _ sel1 B X0 HBx). reflexivity.
+    - rewrite Hwz, (linf_zero_col _ sel1 B Z0 HBz). reflexivity.
+    - apply tail_cancel; exact Hf1.
+    - rewrite sympf_add_r, (sympf_sym _ v w), (Hvc w (or_introl eq_refl)), sympf_lin_zero_r;
+        [reflexivity|].
+      intros u Hu. rewrite sympf_sym. apply Hvc; right; exact Hu. }
+  destruct (norm_v (S n) w B v Z0 Hwz Hc Hvc) as [v1 [Hv1z [Hv1c [Hv1k Hback]]]].
+  apply Hback.
+  assert (Hv1x : v1 X0 = false) by (rewrite (Hv1k X0 Hwx); exact Hvx).
+  destruct (IH (map tlv B) (tlv v1)) as [sel [Hl Hf]].
+  - rewrite map_length; exact Hlen.
+  - exact HcT.
+  - exact HiT.
+  - apply tail_vcomm; [exact HBx|exact Hv1x|apply (vcomm_tail_of_cons _ _ _ _ Hv1c)].
+  - rewrite map_length in Hl. exists (false :: sel). split; [simpl; f_equal; exact Hl|].
+    intros p Hp. simpl.
+    assert (Hy : (fun q => xorb (true && v1 q) (linf sel B q)) p = false).
+    { apply (zero_from_tail n (fun q => xorb (true && v1 q) (linf sel B q))); [| | |exact Hp].
+      - rewrite Hv1x, (linf_zero_col _ sel B X0 HBx). reflexivity.
+      - rewrite Hv1z, (linf_zero_col _ sel B Z0 HBz). reflexivity.
+      - apply tail_cancel; exact Hf. }
+    simpl in Hy. revert Hy. destruct (v1 p), (linf sel B p); simpl; congruence.
+Qed.
+
+Lemma all_false_of_existsb (f : vec -> bool) A :
+  existsb f A = false -> forall u, In u A -> f u = false.
+Proof.
+  intros H u Hu. destruct (f u) eqn:E; [|reflexivity].
+  rewrite <- H. symmetry. apply existsb_exists. exists u; split; assumption.
+Qed.
+
+Theorem iso_max : forall n, P n.
+Proof.
+  induction n as [|n IH]; intros A v Hlen Hc Hi Hv.
+  - exists []. split; [destruct A; [reflexivity|discriminate]|]. intros p Hp; lia.
+  - destruct (existsb (fun u : vec => u X0) A) eqn:Ex.
+    + apply existsb_exists in Ex as [w [Hin Hw]].
+      destruct (pivot_reduce (S n) X0 A w v Hin Hw Hc Hi Hv)
+        as [B [HlB [HcB [HiB [HvB [HBx [Hsp _]]]]]]].
+      apply Hsp.
+      destruct (norm_v (S n) w B v X0 Hw HcB HvB) as [v1 [Hv1x [Hv1c [_ Hback]]]].
+      apply Hback. apply (caseA n IH); try assumption. unfold vec in *; lia.
+    + assert (HAx : forall u, In u A -> u X0 = false)
+        by exact (all_false_of_existsb _ A Ex).
+      destruct (existsb (fun u : vec => u Z0) A) eqn:Ez.
+      * apply existsb_exists in Ez as [w [Hin Hw]].
+        destruct (pivot_reduce (S n) Z0 A w v Hin Hw Hc Hi Hv)
+          as [B [HlB [HcB [HiB [HvB [HBz [Hsp Hkeep]]]]]]].
+        apply Hsp. apply (caseB2 n IH); try assumption.
+        -- unfold vec in *; lia.
+        -- apply HAx; exact Hin.
+        -- apply (Hkeep X0 HAx).
+      * assert (HAz : forall u, In u A -> u Z0 = false)
+          by exact (all_false_of_existsb _ A Ez).
+        destruct A as [|w B]; [discriminate|]. exfalso.
+        apply (caseB1 n IH w B).
+        -- simpl in Hlen; lia.
+        -- apply HAx; left; reflexivity.
+        -- apply HAz; left; reflexivity.
+        -- intros u Hu; apply HAx; right; exact Hu.
+        -- intros u Hu; apply HAz; right; exact Hu.
+        -- exact Hc.
+        -- exact Hi.
+Qed.
+
+(* ---------- transfer to rows --------------------------------------------------------------------- *)
+Definition col (n : nat) (p : bool * nat) : nat := if fst p then snd p + n else snd p.
+Definition emb (n : nat) (r : row) : vec := fun p => get r (col n p).
+
+Lemma fold_sympf n : forall a b : vec,
+  fold_right xorb false
+    (map (fun i => xorb (a (false, i) && b (true, i)) (a (true, i) && b (false, i))) (seq 0 n))
+  = sympf n a b.
+Proof.
+  induction n as [|n IH]; intros a b; [reflexivity|].
+  change (seq 0 (S n)) with (0 :: seq 1 n). rewrite <- seq_shift, map_cons, map_map.
+  simpl. f_equal. exact (IH (tlv a) (tlv b)).
+Qed.
+
+Lemma symp_emb n a b : symp n a b = sympf n (emb n a) (emb n b).
+Proof. symmetry. exact (fold_sympf n (emb n a) (emb n b)). Qed.
+
+Lemma lin_emb n sel : forall A p, linf sel (map (emb n) A) p = lin sel A (col n p).
+Proof.
+  induction sel as [|s sel IH]; intros [|r A] p; simpl; try reflexivity.
+  rewrite IH. reflexivity.
+Qed.
+
+Lemma col_lt n p : snd p < n -> col n p < 2 * n.
+Proof. destruct p as [[|] i]; unfold col; simpl; lia. Qed.
+
+Lemma col_surj n j : j < 2 * n -> exists p, snd p < n /\ col n p = j.
+Proof.
+  intros H. destruct (Nat.ltb_spec j n) as [Hlt|Hge].
+  - exists (false, j). split; [exact Hlt|reflexivity].
+  - exists (true, j - n). unfold col; simpl. split; lia.
+Qed.
+
+Theorem isotropic_maximal n A v :
+  length A = n ->
+  (forall a b, In a A -> In b A -> symp n a b = false) ->
+  lindep (2 * n) A ->
+  (forall a, In a A -> symp n a v = false) ->
+  inspan (2 * n) A (get v).
+Proof.
+  intros Hlen Hc Hi Hv.
+  destruct (iso_max n (map (emb n) A) (emb n v)) as [sel [Hl Hf]].
+  - rewrite map_length; exact Hlen.
+  - intros a b Ha Hb. apply in_map_iff in Ha as [a' [<- Ha']]. apply in_map_iff in Hb as [b' [<- Hb']].
+    rewrite <- symp_emb. apply Hc; assumption.
+  - intros sel Hl Hz. rewrite map_length in Hl. apply Hi; [exact Hl|].
+    intros j Hj. destruct (col_surj n j Hj) as [p [Hp <-]].
+    rewrite <- lin_emb. apply Hz; exact Hp.
+  - intros a Ha. apply in_map_iff in Ha as [a' [<- Ha']]. rewrite <- symp_emb. apply Hv; exact Ha'.
+  - rewrite map_length in Hl. exists sel. split; [exact Hl|].
+    intros j Hj. destruct (col_surj n j Hj) as [p [Hp <-]].
+    rewrite <- lin_emb. exact (Hf p Hp).
+Qed.
+
+Print Assumptions isotropic_maximal.
